@@ -19,7 +19,7 @@ import (
 	"pgregory.net/rapid"
 )
 
-func TestMain(m *testing.M) { vh.Main(m) }
+func TestMain(m *testing.M)   { vh.Main(m) }
 func TestReplay(t *testing.T) { vh.Replay(t) }
 func TestCorpus(t *testing.T) { vh.Corpus(t) }
 
@@ -402,7 +402,9 @@ func TestGrid(t *testing.T) {
 		}
 		for _, h := range uncached {
 			for _, nm := range []string{h, strings.ToLower(h), strings.ToUpper(h)} {
-				ok = ok && try(func(c *Case) { c.ResHeaders = []gen.HeaderKV{{Name: "X-A", Values: []string{"1"}}, {Name: nm, Values: []string{"v"}}} })
+				ok = ok && try(func(c *Case) {
+					c.ResHeaders = []gen.HeaderKV{{Name: "X-A", Values: []string{"1"}}, {Name: nm, Values: []string{"v"}}}
+				})
 			}
 		}
 		for _, h := range statefulReq {
